@@ -24,7 +24,7 @@ CHECKS = {
          E1NOTE + "Scratch modules use language version go1.23 (per-iteration loop variables): the single known finding of C03 depends on that."),
  "C04": ("E1 diff-trace",
          "runtime differential monitor: range loops inside compiled generators vs Go's native range statement executing the same text on the reference coroutine; systematic kinds x forms x bodies x mutations",
-         "Exploration: the whole systematic cross product (both tiers; ~4000 programs) of 48 collection kinds (strings, slices, arrays, maps, channels, integers incl. constants / typed constants / calls, copying and non-copying conversions ([]rune(s), []byte(s), string(bs), text(bs), string(rs), ints(xs), arr[:]) whose SOURCE is mutated during the loop, defined and directional collection types, element types of every kind, and the kinds the compiler leaves native: pointer to array incl. nil, range over func) x up to 8 variable forms x 11 body shapes (yielding, native, in a closure, break/continue, nested, iteration variable updated, captured by closures ...) x mutations of the ranged collection, + directed cases; the thorough tier adds the other wrapping variant of every range expression and a second generator form; full-trace equality, range expression evaluation counted.",
+         "Exploration: the whole systematic cross product (both tiers; ~4000 programs) of 48 collection kinds (strings, slices, arrays, maps, channels, integers incl. constants / typed constants / calls, copying and non-copying conversions ([]rune(s), []byte(s), string(bs), text(bs), string(rs), ints(xs), arr[:]) whose SOURCE is mutated during the loop, defined and directional collection types, element types of every kind, and the kinds the compiler leaves native: pointer to array incl. nil, range over func) x up to 8 variable forms x 11 body shapes (yielding, native, in a closure, break/continue, nested, iteration variable updated, captured by closures ...) x mutations of the ranged collection, + directed cases (incl. labelled ranges restarted by goto in plain closures, effectful key operands, range over a nil channel observed one-sidedly from another goroutine); the thorough tier adds the other wrapping variant of every range expression and a second generator form; full-trace equality, range expression evaluation counted.",
          E1NOTE + "Multi-entry maps are compared as sorted multisets (map order is random)."),
  "C05": ("E1 diff-trace",
          "runtime monitor of delegating generator call graphs vs the reference coroutine (full interleaved trace incl. argument evaluation and delegate-side effects), plus metamorphic twins with the delegation spelled out as a range loop",
@@ -44,19 +44,19 @@ CHECKS = {
          E1NOTE),
  "C14": ("E5 schedules + race detector",
          "runtime monitor of per-iterator records under enumerated interleavings (solo record as oracle) and goroutine-parallel consumption under the Go race detector (GORACE log files, DATA RACE blocks counted and de-duplicated)",
-         "Exploration: 28 closed generator kinds (incl. hand-written BindRecv generators driven by MoveNext, by Send, and a Send-driven relay that advances an inner generator by MoveNext) (ONE generic generator at nine element types incl. three interface types; stateless loop VALUES kept in package variables; ranges over four different non-ASCII strings, slices, maps; recursion; closures; one raw term) + parents that yield child generators capturing their range variables (children consumed at once / deferred / reversed / round-robin); all pairs x all 70 interleavings of 4 advances, PRNG triples x all interleavings of 3 (4) advances, PRNG 4-iterator schedules; 16 (64) goroutines x 40 (200) rounds x 3 (20) race-detector runs with PRNG Gosched, each followed by a COLD-START run (a fresh -race process whose goroutines are the first users of the runtime); every iterator's record must equal its solo record, zero race reports, no panic; the evidence counts distinct schedules and distinct goroutine interleavings actually observed.",
+         "Exploration: 28 closed generator kinds (incl. hand-written BindRecv generators driven by MoveNext, by Send, and a Send-driven relay that advances an inner generator by MoveNext) (ONE generic generator at nine element types incl. three interface types; stateless loop VALUES kept in package variables; ranges over four different non-ASCII strings, slices, maps; recursion; closures; one raw term) + parents that yield child generators capturing their range variables (children consumed at once / deferred / reversed / round-robin); all pairs x all 70 interleavings of 4 advances, PRNG triples x all interleavings of 3 (4) advances, PRNG 4-iterator schedules; 16 (64) goroutines x 40 (200) rounds x 3 (20) race-detector runs with PRNG Gosched, each followed by a COLD-START run (a fresh -race process whose goroutines are the first users of the runtime); every iterator's record must equal its solo record, zero race reports (the race log is capped at 32 MiB per run: a racy runtime is judged on the reports written so far), no panic; the evidence counts distinct schedules and distinct goroutine interleavings actually observed.",
          ASSUME + "The race detector only speaks about interleavings that happened."),
  "C15": ("E6 determinism",
          "runtime monitor of output bytes across fresh compiler processes and perturbed configurations (byte comparison, sha256), helper-identifier uniqueness by parsing the outputs",
-         "Exploration: generated + repository source files compiled alone (repeated, GOMAXPROCS 1/4/16), among extra files, among other packages, as second Compile of a process, into pre-populated dst/dst_tmp (incl. a file only <dst>_tmp holds: nothing without a source may reach dst, a pre-existing <dst>_tmp must survive), under a different root path, after a rejected run, with unrelated in-package and external test files, with the file that declares shared constants / variables processed in the same run or not, with consumer-only files (no generator) sorting before and after all others; every generated file byte-identical to the first configuration.",
+         "Exploration: generated + repository source files compiled alone (repeated, GOMAXPROCS 1/4/16), among extra files, among other packages, as second Compile of a process, into pre-populated dst/dst_tmp (incl. a file only <dst>_tmp holds: nothing without a source may reach dst, a pre-existing <dst>_tmp must survive), under a different root path, after a rejected run, with unrelated in-package and external test files, with the file that declares shared constants / variables processed in the same run or not, with consumer-only files (no generator) sorting before and after all others, every generated file also WITHOUT the other generated files (so that it is the first file the tool visits); every generated file byte-identical to the first configuration.",
          ASSUME + "Process-level nondeterminism (map seeds, scheduling) is sampled by repeated fresh processes."),
  "C16": ("E7 gogen-fs",
          "runtime monitor of the real cmd/cogen under `go generate`: directory snapshots (path, mode, sha256) of module root and parent before/after, strace file-syscall log (thorough), go build / go test / go vet -tags co, second-run snapshot",
-         "Exploration: 19 (thorough 53) module layouts (incl. the directive in a plain doc.go run by a bare `go generate ./...`, generated files of other runs / other GOOS / nested modules / testdata that must stay untouched, a dot import of a sub-package generated in the same run, imports only used by dead code whose package registers itself through init or through a variable initialiser, types / constants of a sub-package generated in the same run, co test file only in a sub-package, directive only in a sub-package, a co file with a foreign generated-code header, a main package with a //go:debug directive that is run after generation, plain-sibling variables yielded by generators and observed by a plain test) and three history steps (edit the co file; edit a plain sibling; turn a constant of a generated sub-package into a variable), each compared with a generation from scratch; the snapshot difference must be exactly the expected derived files with the prescribed header; nothing else created, modified, deleted or left behind; package builds/tests/vets afterwards; second run byte-identical.",
+         "Exploration: 22 (thorough 56) module layouts (incl. the directive in a plain doc.go run by a bare `go generate ./...`, generated files of other runs / other GOOS / nested modules / testdata that must stay untouched, a dot import of a sub-package generated in the same run, imports only used by dead code (in one or in two files) whose package registers itself through init or through a variable initialiser, a blank import in a package with and without a co test file, directories inside the package that look like the tool's temp dir, types / constants of a sub-package generated in the same run, co test file only in a sub-package, directive only in a sub-package, a co file with a foreign generated-code header, a main package with a //go:debug directive that is run after generation, plain-sibling variables yielded by generators and observed by a plain test) and three history steps (edit the co file; edit a plain sibling; turn a constant of a generated sub-package into a variable), each compared with a generation from scratch; the snapshot difference must be exactly the expected derived files with the prescribed header; nothing else created, modified, deleted or left behind; package builds/tests/vets afterwards; second run byte-identical.",
          ASSUME + "Layouts are small synthetic packages; the go tool sets GOFILE etc. exactly as for a user."),
  "C17": ("E4 stack-depth",
          "runtime monitor: runtime.Callers depth sampled inside loop bodies/conditions of compiled generators and raw seq loops at iteration indices 2..n, one child process per configuration; bounded-growth oracle",
-         "Exploration: 120 (thorough 400) PRNG loop nests of 1..6 levels x seven loop forms x decorations + 24 hand-written loop configurations (all loop forms produced by the real compiler + raw seq.For/While/Loop/Combine/BindRecv terms) with a body that yields only on the last of 10^5 (thorough 10^6) iterations; depth(i) - depth(10) <= 16 frames; delegation chains d=1..24 (64): constant increment per level. 'For all n' is restated as bounded growth up to the stated n.",
+         "Exploration: 120 (thorough 400) PRNG loop nests of 1..6 levels x seven loop forms x decorations + 24 hand-written loop configurations (all loop forms produced by the real compiler + raw seq.For/While/Loop/Combine/BindRecv terms) with a body that yields only on the last of 10^5 (thorough 10^6) iterations; depth(i) - depth(10) <= 16 frames; second oracle: every configuration (incl. map ranges whose body removes ~n not yet reached entries, channel and string ranges) runs under a 1 MiB stack limit and must survive; delegation chains d=1..24 (64): constant increment per level. 'For all n' is restated as bounded growth up to the stated n.",
          ASSUME + "A finite run cannot decide the limit n -> infinity; growth rather than absolute depth is judged."),
  "C18": ("E1 diff-trace",
          "runtime monitor of panic attribution: every consumer call is wrapped in its own recover and logs where and with which value a panic surfaced; compared with the reference coroutine (iter.Pull propagates the body's panic out of the resuming call)",
@@ -64,7 +64,7 @@ CHECKS = {
          E1NOTE + "Nothing is compared after the panicking call (the property does not specify it)."),
  "C12": ("E1 diff-trace (rejection outcomes)",
          "runtime monitor of compile outcomes and, when compilation succeeds, of the trace vs the reference coroutine in which the unsupported construct executes natively; a co.go trap overlay observes surviving Yield stub calls directly",
-         "Exploration: 22 unsupported constructs x up to 5 statement positions + PRNG injection of 16 construct families (incl. labelled loops whose label is only used from inside a switch / select / inner loop of their own body, labelled switches, defer around the last yield) + the API used as a value / in plain closures + signature cases + 12 negative controls + 200 (1400) PRNG injections, one real compiler invocation each; outcome classes rejected / unbuildable / equivalent are fine, divergent or STUB-YIELD is a violation; negative controls must be accepted and equivalent.",
+         "Exploration: 22 unsupported constructs x up to 5 statement positions + PRNG injection of 16 construct families (incl. labelled loops whose label is only used from inside a switch / select / inner loop of their own body, labelled switches, defer around the last yield) + the API used as a value / in plain closures + signature cases + 12 negative controls + 200 (1400) PRNG injections, one real compiler invocation each; outcome classes rejected / unbuildable / equivalent are fine, divergent or STUB-YIELD is a violation, and so is the go:generate entry point returning normally without deriving the file (cogen would exit 0 and leave a stale output); negative controls must be accepted and equivalent.",
          E1NOTE),
  "C13": ("E1 diff-trace (native source as reference)",
          "runtime differential monitor: the source package built natively vs the generated package on the same driver, result/effect traces; build of the generated package",
